@@ -714,3 +714,63 @@ func (c *Ctx) onlyCalledFrom(fn *ssa.Function, set map[*ssa.Function]bool) bool 
 	}
 	return true
 }
+
+// funcValueTarget: the function a function VALUE denotes — a literal, a named
+// function, or a method value (then the method behind the bound-method
+// wrapper). nil if it cannot be told statically.
+func funcValueTarget(v ssa.Value) *ssa.Function {
+	var fn *ssa.Function
+	switch t := unwrapV(v).(type) {
+	case *ssa.MakeClosure:
+		fn, _ = t.Fn.(*ssa.Function)
+	case *ssa.Function:
+		fn = t
+	}
+	if fn != nil && fn.Synthetic != "" {
+		var callee *ssa.Function
+		n := 0
+		instrs(fn, func(in ssa.Instruction) {
+			if ci, ok := in.(ssa.CallInstruction); ok && ci.Common().StaticCallee() != nil {
+				callee = ci.Common().StaticCallee()
+				n++
+			}
+		})
+		if n != 1 {
+			return nil
+		}
+		fn = callee
+	}
+	return fn
+}
+
+// valueFuncs: the functions whose value is taken (stored, passed) inside fn —
+// callbacks fn installs; closures are found by instrsDeep already, this adds
+// named functions and method values.
+func valueFuncs(fn *ssa.Function) []*ssa.Function {
+	var out []*ssa.Function
+	seen := map[*ssa.Function]bool{}
+	instrsDeep(fn, func(_ *ssa.Function, in ssa.Instruction) {
+		for _, op := range in.Operands(nil) {
+			if op == nil || *op == nil {
+				continue
+			}
+			if _, isCall := in.(ssa.CallInstruction); isCall {
+				if ci := in.(ssa.CallInstruction); ci.Common().Value == *op {
+					continue // the callee position is a call, not a value use
+				}
+			}
+			t := funcValueTarget(*op)
+			if t == nil || seen[t] || t.Parent() != nil || t.Pkg != fn.Pkg {
+				continue
+			}
+			if mc, ok := unwrapV(*op).(*ssa.MakeClosure); ok {
+				if f0, _ := mc.Fn.(*ssa.Function); f0 != nil && f0.Synthetic == "" {
+					continue // an ordinary literal: already part of fn
+				}
+			}
+			seen[t] = true
+			out = append(out, t)
+		}
+	})
+	return out
+}
